@@ -59,13 +59,14 @@ type v19Write struct {
 }
 
 type v19Inj struct {
-	id       int
-	sock     int
-	role     string
-	at       time.Duration
-	eligible bool // injected on a live socket at a quiescent point, no read deadline expired, before Close
-	asserted bool // delivery is now due
-	received bool
+	id         int
+	sock       int
+	role       string
+	at         time.Duration
+	afterCycle bool // injected after a read deadline had expired and been cleared again
+	eligible   bool // injected on a live socket at a quiescent point, no read deadline expired, before Close
+	asserted   bool // delivery is now due
+	received   bool
 }
 
 type v19H struct {
@@ -85,18 +86,20 @@ type v19H struct {
 	injected    map[string]*v19Inj
 	seq         int
 
-	rdl           time.Time // read deadline the harness has set through the conn (zero = none)
-	resume        chan struct{}
-	permits       chan struct{}
-	readerDone    chan struct{}
-	readsDone     int
-	readOK        int
-	readTimeouts  int
-	readErrs      int
-	closeCalled   bool
-	closeReturned bool
-	staleAfter    int
-	livelock      bool
+	rdl            time.Time // read deadline the harness has set through the conn (zero = none)
+	resume         chan struct{}
+	permits        chan struct{}
+	readerDone     chan struct{}
+	readsDone      int
+	readOK         int
+	readTimeouts   int
+	readErrs       int
+	closeCalled    bool
+	closeReturned  bool
+	staleAfter     int
+	livelock       bool
+	timeoutsQueued bool // a read deadline has expired since the reader was last (re-)armed
+	cycles         int  // read deadline expired and was cleared/extended again, reader re-armed
 
 	log  []string
 	fail string
@@ -374,7 +377,8 @@ func (h *v19H) inject(role, size int, atHop, assertNow bool) {
 	from := &net.UDPAddr{IP: h.serverIP, Port: 1 + (size*13)%65535}
 	select {
 	case s.inbox <- v19Pkt{data: p, from: from}:
-		inj.eligible = !atHop && name != "older" && !h.expiredLocked() && !h.closeCalled
+		inj.eligible = !atHop && name != "older" && !h.expiredLocked() && !h.timeoutsQueued && !h.closeCalled
+		inj.afterCycle = h.cycles > 0
 		inj.asserted = inj.eligible && assertNow
 		h.injected[string(p)] = inj
 		h.logf("inject %s on %s s%d%s", v19Short(string(p)), name, s.id, map[bool]string{true: "", false: " (delivery not demanded)"}[inj.eligible])
@@ -715,11 +719,7 @@ func v19GenOps(t *rapid.T, free bool, max int) []v19Op {
 		case r < 83:
 			o.kind = v19OpDeadline
 			o.n = rapid.IntRange(0, 2).Draw(t, "which")
-			if free {
-				o.m = rapid.SampledFrom([]int{0, 0, 1, 2, 2, 3, 4}).Draw(t, "dl")
-			} else {
-				o.m = rapid.IntRange(0, 1).Draw(t, "dl")
-			}
+			o.m = rapid.SampledFrom([]int{0, 0, 1, 2, 2, 3, 4}).Draw(t, "dl")
 			o.d = time.Duration(rapid.IntRange(1, 40000).Draw(t, "dlMs")) * time.Millisecond
 			o.atHop = rapid.IntRange(0, 7).Draw(t, "atHop") == 0
 		case r < 86:
@@ -755,6 +755,34 @@ func v19GenCase(t *rapid.T) *v19Case {
 	c.seed = rapid.Int64Range(1, 1<<40).Draw(t, "randSeed")
 	c.free = rapid.Bool().Draw(t, "freeReader")
 	c.ops = v19GenOps(t, c.free, 45)
+	if rapid.IntRange(0, 3).Draw(t, "deadlineCycle") == 0 {
+		// directed fragment: (some hops) -> a read deadline that really expires between two hops ->
+		// deadline cleared / moved into the future -> packets arrive on the previous and the newest
+		// socket before the next hop. After the harness has re-armed its reader they must be delivered.
+		which := rapid.IntRange(0, 1).Draw(t, "cycleWhich")
+		frag := []v19Op{{kind: v19OpAdvance, m: 2, n: rapid.IntRange(1, 3).Draw(t, "cycleHops"), d: time.Duration(rapid.IntRange(0, 500).Draw(t, "cyclePhaseMs")) * time.Millisecond}}
+		switch rapid.IntRange(0, 2).Draw(t, "cycleExpiry") {
+		case 0:
+			frag = append(frag, v19Op{kind: v19OpDeadline, n: which, m: 3})
+		case 1:
+			frag = append(frag, v19Op{kind: v19OpDeadline, n: which, m: 4})
+		default:
+			d := time.Duration(rapid.IntRange(1, 2000).Draw(t, "cycleInMs")) * time.Millisecond
+			frag = append(frag, v19Op{kind: v19OpDeadline, n: which, m: 2, d: d}, v19Op{kind: v19OpAdvance, m: 0, d: d + time.Duration(rapid.IntRange(0, 1500).Draw(t, "cycleOverMs"))*time.Millisecond})
+		}
+		if rapid.Bool().Draw(t, "cycleWriteMeanwhile") {
+			frag = append(frag, v19Op{kind: v19OpWrite, n: 100})
+		}
+		frag = append(frag, v19Op{kind: v19OpDeadline, n: rapid.IntRange(0, 1).Draw(t, "cycleClearWhich"), m: rapid.IntRange(0, 1).Draw(t, "cycleClear")})
+		for i, k := 0, rapid.IntRange(1, 3).Draw(t, "cycleInjects"); i < k; i++ {
+			frag = append(frag, v19Op{kind: v19OpInject, m: rapid.SampledFrom([]int{1, 1, 0}).Draw(t, "cycleRole"), n: 64})
+		}
+		if !c.free {
+			frag = append(frag, v19Op{kind: v19OpDrain})
+		}
+		at := rapid.IntRange(0, len(c.ops)).Draw(t, "cycleAt")
+		c.ops = append(c.ops[:at:at], append(frag, c.ops[at:]...)...)
+	}
 	if rapid.IntRange(0, 3).Draw(t, "warmUp") != 0 {
 		// most histories start some hops in, so that the later ops meet a previous socket
 		c.ops = append([]v19Op{{kind: v19OpAdvance, m: 2, n: rapid.IntRange(1, 4).Draw(t, "warmUpIntervals")}}, c.ops...)
@@ -769,8 +797,8 @@ func v19GenCase(t *rapid.T) *v19Case {
 // ---------------------------------------------------------------- running one history
 
 type v19Info struct {
-	hops, failedListens, injPrev, closeAtHop, staleAfterClose int
-	expiredSeen, newErr, livelock                             bool
+	hops, failedListens, injPrev, injPrevAfterCycle, closeAtHop, staleAfterClose int
+	expiredSeen, newErr, livelock                                                bool
 }
 
 // v19Tolerant: only if known_findings.txt lists the finding as `known:` (it is `fixed:` in the
@@ -815,6 +843,9 @@ func v19RunHistory(outer *testing.T, c *v19Case) (fail string, info v19Info) {
 			for _, inj := range h.injected {
 				if inj.role == "previous" && inj.received {
 					info.injPrev++
+					if inj.afterCycle && inj.eligible {
+						info.injPrevAfterCycle++
+					}
 				}
 			}
 			h.mu.Unlock()
@@ -927,8 +958,10 @@ func v19RunHistory(outer *testing.T, c *v19Case) (fail string, info v19Info) {
 			closedBefore := h.closeReturned
 			socksBefore := len(h.socks)
 			openBefore := fmt.Sprint(h.openLocked())
-			if h.expiredLocked() {
+			expiredBefore := h.expiredLocked()
+			if expiredBefore {
 				info.expiredSeen = true
+				h.timeoutsQueued = true
 			}
 			tooManyHops := len(h.listenTimes) > 26
 			h.logf("op %v", o)
@@ -1057,11 +1090,11 @@ func v19RunHistory(outer *testing.T, c *v19Case) (fail string, info v19Info) {
 					_ = conn.LocalAddr()
 				}
 			case v19OpRead:
-				if !c.free {
+				if !c.free && !expiredBefore {
 					readQueued(o.n, false)
 				}
 			case v19OpDrain:
-				if !c.free && !closedBefore {
+				if !c.free && !closedBefore && !expiredBefore {
 					readQueued(0, true)
 					// everything injected on a live socket at a quiescent point has been queued by now
 					h.mu.Lock()
@@ -1078,6 +1111,33 @@ func v19RunHistory(outer *testing.T, c *v19Case) (fail string, info v19Info) {
 			}
 			synctest.Wait()
 			where := "after " + o.String()
+			h.mu.Lock()
+			expiredNow := h.expiredLocked()
+			if expiredNow {
+				info.expiredSeen = true
+				h.timeoutsQueued = true
+			}
+			rearm := !expiredNow && h.timeoutsQueued && !closedBefore
+			h.mu.Unlock()
+			if rearm {
+				// The deadline was cleared or moved into the future (only a deadline op can do that).
+				// Re-arm: the free reader has been resumed and has read everything that was queued
+				// (it is parked in ReadFrom again, or synctest.Wait would not have returned); the permit
+				// reader is now told to read the queue empty, round after round, until the recvLoops that
+				// were parked in their blocking "timeout result" send have got rid of it and are back in
+				// the sockets' ReadFrom. From here on delivery is demanded again.
+				if !c.free {
+					readQueued(0, true)
+					synctest.Wait()
+				}
+				if v19QueueLen(conn) == 0 {
+					h.mu.Lock()
+					h.timeoutsQueued = false
+					h.cycles++
+					h.logf("reader re-armed after the read deadline was cleared")
+					h.mu.Unlock()
+				}
+			}
 			h.census(where)
 			if c.free {
 				h.deliveryDue(where)
@@ -1264,6 +1324,9 @@ func TestVerifC19_Hop(t *testing.T) {
 		}
 		if info.expiredSeen {
 			cls = append(cls, "read-deadline-expired")
+		}
+		if info.injPrevAfterCycle > 0 {
+			cls = append(cls, "delivered-from-previous-after-deadline-cycle")
 		}
 		if info.staleAfterClose > 0 {
 			cls = append(cls, "stale-read-after-close")
